@@ -1033,8 +1033,13 @@ func (p *CodeBuilder) MemberRef(name string, src ...ast.Node) *CodeBuilder {
 func (p *CodeBuilder) refMember(typ types.Type, name string, argVal target.Expr, src ast.Node, visited map[*types.Struct]none) MemberKind {
 	switch o := indirect(typ).(type) {
 	case *types.Named:
-		if struc, ok := p.getUnderlying(o).(*types.Struct); ok {
-			if p.fieldRef(argVal, struc, name, src, visited) {
+		switch u := p.getUnderlying(o).(type) {
+		case *types.Struct:
+			if p.fieldRef(argVal, u, name, src, visited) {
+				return MemberField
+			}
+		case *types.Map:
+			if p.mapIndexRef(u, name, argVal, src) {
 				return MemberField
 			}
 		}
@@ -1043,20 +1048,26 @@ func (p *CodeBuilder) refMember(typ types.Type, name string, argVal target.Expr,
 			return MemberField
 		}
 	case *types.Map:
-		// Map member access provides syntactic sugar: m.key is converted to m["key"]
-		// This allows more concise map access when keys are valid identifiers.
-		// Note: Only works with string-keyed maps.
-		if key, ok := o.Key().(*types.Basic); !ok || (key.Info()&types.IsString) == 0 {
-			break
+		if p.mapIndexRef(o, name, argVal, src) {
+			return MemberField
 		}
-		tyRet := &refType{typ: o.Elem()}
-		elem := &internal.Elem{
-			Val: &target.IndexExpr{X: argVal, Index: stringLit(name)}, Type: tyRet, Src: src,
-		}
-		p.stk.Ret(1, elem)
-		return MemberField
 	}
 	return MemberInvalid
+}
+
+// mapIndexRef provides syntactic sugar for map member access: m.key = v is converted to
+// m["key"] = v. This allows more concise map access when keys are valid identifiers.
+// Note: Only works with string-keyed maps.
+func (p *CodeBuilder) mapIndexRef(o *types.Map, name string, argVal target.Expr, src ast.Node) bool {
+	if key, ok := o.Key().(*types.Basic); !ok || (key.Info()&types.IsString) == 0 {
+		return false
+	}
+	tyRet := &refType{typ: o.Elem()}
+	elem := &internal.Elem{
+		Val: &target.IndexExpr{X: argVal, Index: stringLit(name)}, Type: tyRet, Src: src,
+	}
+	p.stk.Ret(1, elem)
+	return true
 }
 
 func (p *CodeBuilder) fieldRef(x target.Expr, o *types.Struct, name string, src ast.Node, visited map[*types.Struct]none) bool {
